@@ -25,6 +25,7 @@ type witness struct {
 type lastRun struct {
 	Sig    string
 	Unsafe map[string]string
+	Stale  bool // a missing re-execution was already reported for this target and it has not executed since
 }
 
 const noCache = "[cache]\ndir =\n"
@@ -121,7 +122,7 @@ func hashLast(m map[string]lastRun) string {
 	}
 	sort.Strings(ks)
 	for _, k := range ks {
-		fmt.Fprintf(h, "%s:%s:", k, m[k].Sig)
+		fmt.Fprintf(h, "%s:%s:%v:", k, m[k].Sig, m[k].Stale)
 		for _, u := range hist.SortedKeys(m[k].Unsafe) {
 			fmt.Fprintf(h, "%s=%s,", u, m[k].Unsafe[u])
 		}
@@ -224,6 +225,7 @@ func makeJudge(e *hist.Engine, fam hist.EnvFam, memo *hist.Memo) hist.Judge {
 				}
 				last[t.Label] = lastRun{Sig: sig, Unsafe: uv}
 			} else if !had || prev.Sig != sig || removed {
+				last[t.Label] = lastRun{Sig: sig, Unsafe: prev.Unsafe, Stale: true} // attributed to the transition that introduces it
 				violate(fmt.Sprintf("not-re-executed-after-hashed-change:cfg=%s:target=%s:edit=%s", fam.Cfg, t.Label, ed.Kind), w,
 					fmt.Sprintf("%s was not executed although a variable it lists in pass_env / [build] passenv changed (%q -> %q) or its output was removed\nactions: %v\n%s", t.Label, prev.Sig, sig, obs.Actions, obs.Output))
 			}
@@ -256,7 +258,7 @@ func makeJudge(e *hist.Engine, fam hist.EnvFam, memo *hist.Memo) hist.Judge {
 			}
 			// (2) differential: the printed environment equals what a fresh build prints when the caller sets only the passed variables
 			lr, ok := last[t.Label]
-			if !ok {
+			if !ok || (lr.Stale && ran[t.Label] == 0) {
 				continue
 			}
 			want := reference(t.Label, t.Outs[0], fam.RefSrc(t.Label, ed.Src, lr.Unsafe))
